@@ -17,6 +17,12 @@ program, compiled by exactly one worker; base models are pre-built serially in s
                         retained base parameter) | cond (C conditional) | interm1 | interm2 (second
                         intermediate uses the first) | prefix (identifiers r, r2, r2_x) | offset (sld)
               | size 2: affine2 | volecc (documented volume/eccentricity example) | chain2 | prefix2 | shared
+              | size 3 (all three volume parameters of barbell, hollow_cylinder, parallelepiped, triaxial_ellipsoid):
+                        affine3 | scale3 (one new parameter, one intermediate)
+  new type  ::= "volume" | ""   type of the new parameters that replace volume parameters.  "" is built for every
+              template when the replaced set is ALL volume parameters of the base (the derived table then has no
+              volume-typed parameter left, but volumes, R_eff and the volume normalisation must still be the base
+              model's), and for every template (thorough) / one template (quick) of the other replaced sets
   insert_after ::= None | {"": all new} | {K: all new} for every base parameter K (retained or removed)
               | split {"": first, last base parameter: second}
   Every (base, replaced, template) that type-checks is built with insert_after=None; every insert_after
@@ -144,7 +150,21 @@ def _row(name, default, ptype, lo=0.0):
     return [name, "", float(default), [lo, INF], ptype, "new parameter"]
 
 
-def template(tname, rep, info):
+def template(tname, rep, info, ptype="volume"):
+    """
+    ptype: type given to the new parameters that replace volume parameters: "volume" (dispersible) or ""
+    (plain; if ALL volume parameters of the base are replaced this way, the derived table has no volume-typed
+    parameter at all, while the base functions still need their volume arguments).
+    """
+    tpl = _template(tname, rep, info)
+    if tpl is not None and ptype != "volume":
+        for row in tpl["rows"]:
+            if row[4] == "volume":
+                row[4] = ptype
+    return tpl
+
+
+def _template(tname, rep, info):
     """
     rep: list of replaced base parameter ids; info: base ModelInfo.
     Returns dict(rows=[...], text=str, fn=callable(new+retained values) -> {replaced id: value}) or None if the
@@ -264,11 +284,29 @@ def template(tname, rep, info):
                         text="%s = %s\n%s = %r*%s" % (p1, x, p2, k, x),
                         fn=lambda v: {p1: v[x], p2: k * v[x]})
         return None
+    if len(rep) == 3:
+        if t != ["volume"] * 3:
+            return None
+        p1, p2, p3 = rep
+        d1, d2, d3 = d
+        if tname == "affine3":
+            x, y, z = fresh("xa"), fresh("ya"), fresh("za")
+            return dict(rows=[_row(x, 0.4 * d1, "volume"), _row(y, 0.6 * d2, "volume"), _row(z, 0.9 * d3, "volume")],
+                        text="%s = 2.0*%s + %r\n%s = 1.5*%s + %r\n%s = 1.25*%s" % (p1, x, 0.25 * d1, p2, y, 0.125 * d2, p3, z),
+                        fn=lambda v: {p1: 2.0 * v[x] + 0.25 * d1, p2: 1.5 * v[y] + 0.125 * d2, p3: 1.25 * v[z]})
+        if tname == "scale3":
+            x = fresh("size")
+            k2, k3 = d2 / d1, d3 / d1
+            return dict(rows=[_row(x, 1.1 * d1, "volume")],
+                        text="s2 = %r*%s\n%s = %s\n%s = s2\n%s = s2*%r" % (k2, x, p1, x, p2, p3, k3 / k2),
+                        fn=lambda v: {p1: v[x], p2: k2 * v[x], p3: (k2 * v[x]) * (k3 / k2)})
+        return None
     return None
 
 
 T1 = ["affine", "affine-neg", "power", "ratio", "cond", "interm1", "interm2", "prefix", "offset"]
 T2 = ["affine2", "volecc", "chain2", "prefix2", "shared"]
+T3 = ["affine3", "scale3"]
 
 
 def base_info(ctx, base):
@@ -329,12 +367,23 @@ def cases(ctx):
         if ctx.quick:
             pairs = pairs[:1]
         first_insert = True
-        for rep in singles + pairs:
-            tnames = T1 if len(rep) == 1 else T2
+        triples = [vols] if len(vols) == 3 else []
+        if len(vols) == 2 and vols not in pairs:
+            pairs.append(vols)
+        for rep in singles + pairs + triples:
+            tnames = {1: T1, 2: T2, 3: T3}[len(rep)]
             usable = [tn for tn in tnames if template(tn, rep, info) is not None]
             for tn in usable:
                 out.append({"kind": "prog", "base": base, "rep": rep, "template": tn, "insert": None})
-            if not usable:
+            # dimension "type of the new parameters": "" instead of "volume".  Every template when the replaced set is
+            # ALL volume parameters of the base (no volume-typed parameter left in the derived table); otherwise
+            # every template (thorough) / one template rotated by the seed (quick)
+            if all(info.parameters[x].type == "volume" for x in rep) and usable:
+                full = set(rep) == set(vols)
+                plain = usable if (full or not ctx.quick) else [usable[ctx.seed % len(usable)]]
+                for tn in plain:
+                    out.append({"kind": "prog", "base": base, "rep": rep, "template": tn, "insert": None, "ptype": ""})
+            if not usable or len(rep) == 3:
                 continue
             # insert_after alternatives on one template per replaced set (rotated by the seed)
             if ctx.quick and not (first_insert or len(rep) == 2):
@@ -411,7 +460,8 @@ def _run_prog(case, ctx):
     base = case["base"]
     binfo = base_info(ctx, base)
     rep = case["rep"]
-    tpl = template(case["template"], rep, binfo)
+    ptype = case.get("ptype", "volume")
+    tpl = template(case["template"], rep, binfo, ptype)
     new_ids = [row[0] for row in tpl["rows"]]
     name = "vr%s" % case_id(case)
     ins = case["insert"]
@@ -426,6 +476,9 @@ def _run_prog(case, ctx):
     r.branch("insert:" + fk0["insert"])
     r.branch("base:" + base)
     fk0["rep"] = "+".join(rep)
+    if ptype != "volume":
+        fk0["new_type"] = "plain"
+    r.branch("new-type:" + (ptype or "plain"))
     # new parameters placed between theta and phi (or phi and psi) give an ill-formed table: refusal expected
     orient = [p.id for p in binfo.parameters.kernel_parameters if p.type == "orientation"]
     splits = ins is not None and any(k in orient[:-1] for k in ins)
@@ -471,6 +524,11 @@ def _run_prog(case, ctx):
             r.fail(("%s\n  new parameter %s has %s" % (call, row, _psig(p))) + where, dict(fk0, clause="table-new"))
             return r
     r.ok(nt=True, outcome="table-ok", branches=["table-checked"])
+    # every volume parameter of the base replaced by plain-typed new parameters: the call table has no volume-typed
+    # parameter, the base functions still take their (translated) volume arguments
+    no_volume_left = bool(binfo.parameters.form_volume_parameters) and not dinfo.parameters.form_volume_parameters
+    if no_volume_left:
+        r.branch("program:no-volume-typed-parameter-left")
     try:
         with warnings.catch_warnings():
             warnings.simplefilter("ignore")
@@ -511,7 +569,7 @@ def _run_prog(case, ctx):
         vals = {}
         for k, p in enumerate(dpars):
             v = float(p.default)
-            if cfg["nominal"] and p.type == "volume":
+            if cfg["nominal"] and (p.type == "volume" or (ptype != "volume" and p.id in new_ids)):
                 v *= ctx.factor(k)
             vals[p.id] = v
         pars = dict(vals, scale=SCALE, background=BACKGROUND)
@@ -541,6 +599,8 @@ def _run_prog(case, ctx):
             return p
         ref = G.mean_from_points(point_fn, nq, dict(vals, scale=SCALE, background=BACKGROUND), disp, cutoff)
         br = ["dim:" + dim]
+        if no_volume_left:
+            br.append("no-volume-typed-parameter-left")
         if disp:
             br.append("dispersed")
             if any(k in new_ids for k in disp):
@@ -782,6 +842,12 @@ def finish(ctx, report):
     report.require("reff-mode", 100, "effective-radius modes")
     report.require("python-base-judged", 1, "pure-Python base model")
     report.require("refused-orientation-split", 1, "insert_after between the orientation angles")
+    report.require("new-type:plain", 20, "programs whose new parameters are typed '' instead of 'volume'")
+    report.require("program:no-volume-typed-parameter-left", len(QUICK_BASES if ctx.quick else ALL_BASES),
+                   "programs replacing ALL volume parameters by plain-typed new parameters")
+    report.require("no-volume-typed-parameter-left", 200, "evaluations of a derived table without volume-typed parameter")
+    for t in T3:
+        report.require("template:" + t, 1, "programs with template " + t)
     nb = len(QUICK_BASES if ctx.quick else ALL_BASES)
     report.require("sequence:1", 5 * nb, "single builds in a fresh process")
     report.require("sequence:2", 20 * nb, "ordered pairs of reparameterisations differing only in the equations")
